@@ -21,7 +21,7 @@
     "all centre hydrogens explicit" branch (default mode: _strip_explicit_h, hydrogen expansion, _explicit_h). *)
 From Coq Require Import List NArith ZArith Bool Permutation.
 From SK Require Import lib.Mono model.C06_Model lib.C06_Spec model.C11_Model.
-From SK Require Import lib.Tok lib.LGraph model.C03_Model model.C04_Model proof.C04_Any proof.C04_Check proof.C04_Proof proof.C04_DefaultProof proof.C04_Engine proof.C04_Prune proof.C04_Examples.
+From SK Require Import lib.Tok lib.LGraph model.C03_Model model.C04_Model model.C04_Reactor proof.C04_Any proof.C04_Check proof.C04_Proof proof.C04_DefaultProof proof.C04_Engine proof.C04_Prune proof.C04_Examples proof.C04_Object proof.C04_Chain proof.C04_ObjectExamples.
 Import ListNotations.
 Local Open Scope Z_scope.
 
@@ -191,3 +191,97 @@ Theorem C04_pruned_results : forall (cn : inode -> N) (ce : iedge -> N) (core in
     regen_exact T (if invert then H else G) (if invert then G else H) = true.
 Proof. exact pruned_results_all. Qed.
 Print Assumptions C04_pruned_results.
+
+(** * the reactor as an OBJECT (model/C04_Reactor.v): options, the caches _mappings / _flag_pattern_has_explicit_H / _its /
+    _smarts behind the lazily computed attributes, the engine call through C06's call interface [find_api], the pruning
+    through C11's [prune] on canonical attribute codes, _glue_graph per kept mapping, _explicit_h over the list, _to_smarts,
+    reverse_reaction.  Oracle inputs: [enum] (one VF2 enumeration), [rematch] (the re-matching of the explicit-hydrogen
+    path), [ser] (RDKit's graph_to_smi of the two sides of the i-th ITS). *)
+
+(** the canonical codes [cn_of] / [ce_of] (position of the first atom / bond of the rule with the same label) meet the
+    premise [faithful] of C04_pruned_results: with them that theorem has no hypothesis about codes left *)
+Theorem C04_canonical_codes_faithful : forall t : its, faithful (cn_of t) (ce_of t) t.
+Proof. exact canon_faithful. Qed.
+Print Assumptions C04_canonical_codes_faithful.
+
+(** PARTIAL, but now through the whole reactor.  Full clause wanted: for every reaction in the precondition, every template
+    kind, direction and strategy, the standardised reaction is among the standardised results.  Proved, for the implicit
+    mode and the exhaustive strategy (the reactor's default) with no pre-filter, for ANY embed_threshold [thr] that the
+    number of matches does not exceed: a fresh reactor built from the reaction's own template on its own substrate
+    (i) has, in its_list, an ITS [T] whose decomposition is the reaction -- the engine is called through C06's interface
+    [api_engine enum] = find_subgraph_mappings(strategy, threshold, pre_filter) under C06's VF2 contract for the one
+    enumeration it makes, the pruning is C11's [prune] by the automorphisms of the rule on the canonical codes (applied only
+    when there is more than one raw match), and _glue_graph runs on every kept mapping; and (ii) whenever RDKit writes
+    the two sides of that [T] as strings [r], [p] (non-empty, without '>'), smarts_list contains 'r>>p' -- turned round
+    again ('p>>r', i.e. reactants>>products of the original reaction) when the reactor runs backwards.
+    Missing for the full clause: the default (explicit-hydrogen) mode at this level (proved up to the ITS before _explicit_h:
+    C04_identity_glue_default); strategies comp / bt (comp keeps only component-separating matches and has the
+    strict_cc_count guard); that RDKit parses the unmapped side to this substrate and writes [T] back as a string that
+    Standardize.fit maps to the standardised reaction (oracle). *)
+Theorem C04_in_results_engine_partial : forall (enum : list N -> list N -> list C06_Model.mapping)
+    (rematch : nat -> hostg -> molg -> list C03_Model.mapping) (ser : nat -> its -> option bytes * option bytes)
+    (core invert : bool) (G H : hostg) (thr : option N),
+  pair_wfb G H = true -> no_explicit_H G = true ->
+  (core = true -> centre_carries (its_construct G H) = true) ->
+  forallb (fun p : N * mnode => 0 <=? m_hc (snd p)) (gnodes (pattern_of (dec_side iG C03_Model.eG (template core invert G H)))) = true ->
+  vf2_contract enum (tr_host (substrate invert G H)) (tr_pat (pattern_of (dec_side iG C03_Model.eG (template core invert G H))))
+               (node_ids (tr_host (substrate invert G H)))
+               (node_ids (tr_pat (pattern_of (dec_side iG C03_Model.eG (template core invert G H))))) ->
+  (lenN (enum (node_ids (tr_host (substrate invert G H)))
+              (node_ids (tr_pat (pattern_of (dec_side iG C03_Model.eG (template core invert G H)))))) <= dflt DEFAULT_THRESHOLD thr)%N ->
+  rule_of core invert G H = Some (template core invert G H, dec_side iG C03_Model.eG (template core invert G H),
+                                  dec_side iH C03_Model.eH (template core invert G H)) /\
+  exists (gs : list its) (T : its),
+    fst (read_its (api_engine enum) rematch (own_opts invert false (SMember 0%N) thr false) (substrate invert G H)
+                  (template core invert G H, dec_side iG C03_Model.eG (template core invert G H),
+                   dec_side iH C03_Model.eH (template core invert G H)) fresh) = Some gs /\
+    In T gs /\ regen_exact T (if invert then H else G) (if invert then G else H) = true /\
+    forall (i : nat) (r p : bytes),
+      nth_error gs i = Some T -> ser i T = (Some r, Some p) -> r ++ arrow ++ p <> [] -> no_gt r -> no_gt p ->
+      exists ss : list bytes,
+        fst (read_smarts (api_engine enum) rematch ser (own_opts invert false (SMember 0%N) thr false) (substrate invert G H)
+                         (template core invert G H, dec_side iG C03_Model.eG (template core invert G H),
+                          dec_side iH C03_Model.eH (template core invert G H)) fresh) = Some ss /\
+        In (if invert then p ++ arrow ++ r else r ++ arrow ++ p) ss.
+Proof. exact chain_full. Qed.
+Print Assumptions C04_in_results_engine_partial.
+
+(** the caches are coherent (history cases of the harness, for ALL scripts): if _explicit_h does not raise on any glued
+    ITS ([crashed] = false for the kept mappings), then whatever attributes are read from one reactor -- mappings, its_list,
+    smarts_list, smiles_list, mapping_count, len(smarts_list) -- how often and in which order, every answer is the answer
+    a fresh reactor gives to that read.  In particular smarts_list is reversed once, not on every read; its_list uses
+    the explicit-hydrogen flag the pattern really had.  For any engine, re-matcher, serialiser, options, substrate, rule. *)
+Theorem C04_reads_coherent : forall (engine : sarg -> option N -> bool -> C06_Model.graph -> C06_Model.graph -> outcome)
+    (rematch : nat -> hostg -> molg -> list C03_Model.mapping) (ser : nat -> its -> option bytes * option bytes)
+    (o : ropts) (host : hostg) (rule : triple),
+  (forall ms, compute_mappings engine o host rule = Some ms -> crashed rematch o host rule ms = false) ->
+  forall s : list attr,
+    fst (run_script engine rematch ser o host rule s fresh) = map (fun a => fst (read engine rematch ser o host rule a fresh)) s.
+Proof. exact reads_coherent. Qed.
+Print Assumptions C04_reads_coherent.
+
+(** ... and the hypothesis cannot be dropped: the code keeps the half-processed list when _explicit_h raises
+    (self._its is assigned before the loop over _explicit_h).  Exact description: the first read of its_list raises
+    (None); from then on its_list returns the list in which the graphs before the failing one went through _explicit_h
+    and the others did not ([its_stored]), and smarts_list serialises that list -- no read raises again.  Replayed on the
+    implementation (harness cases hand:crash-rule:obj:*, witness proof/C04_ObjectExamples.v cr_hyps / cr_reads); outside
+    the precondition of C04 (needs a hand-made rule object), hence documented, not repaired. *)
+Theorem C04_stale_after_crash : forall (engine : sarg -> option N -> bool -> C06_Model.graph -> C06_Model.graph -> outcome)
+    (rematch : nat -> hostg -> molg -> list C03_Model.mapping) (ser : nat -> its -> option bytes * option bytes)
+    (o : ropts) (host : hostg) (rule : triple) (ms : list C03_Model.mapping),
+  compute_mappings engine o host rule = Some ms -> crashed rematch o host rule ms = true ->
+  fst (read_its engine rematch o host rule fresh) = None /\
+  (let st1 := snd (read_its engine rematch o host rule fresh) in
+   read_its engine rematch o host rule st1 = (Some (its_stored rematch o host rule ms), st1) /\
+   fst (read_smarts engine rematch ser o host rule st1) = Some (smarts_of ser o (its_stored rematch o host rule ms))).
+Proof. exact stale_after_crash. Qed.
+Print Assumptions C04_stale_after_crash.
+
+(** reverse_reaction / split(">>") on byte strings: for sides without '>' (SMILES have none) reverse_reaction swaps the
+    sides, twice is the identity, and the last piece (smiles_list) is the product side *)
+Theorem C04_reverse_reaction : forall r p : bytes, no_gt r -> no_gt p ->
+  reverse_reaction (r ++ arrow ++ p) = p ++ arrow ++ r /\
+  reverse_reaction (reverse_reaction (r ++ arrow ++ p)) = r ++ arrow ++ p /\
+  last_piece (r ++ arrow ++ p) = p.
+Proof. exact reverse_reaction_all. Qed.
+Print Assumptions C04_reverse_reaction.
